@@ -811,6 +811,23 @@ def _run(res):
     a, d, _r = check_batch(res, [((350, None, None), wit)], "witness")
     agree_all.append(a)
     detail_all.append(d)
+    # 0b. the recorded witness of the stale-record defect (fixed): a sorted batch that names one path twice; handling the
+    #     first record expires the file, the second (made before) put the deleted file back among the tracked ones
+    wit2 = props_ops() + [
+            ("W", (2, 1500000005000, 0), 250),
+            ("W", (2, 1500000004000, 0), 100),
+            ("W", (3, 1500000004000, 0), 100),
+            ("W", (3, 1500000005000, 0), 250),
+            ("S", [(0, 1500000000000, 1), (1, 1500000001000, 0), (2, 1500000005000, 0)]),
+            ("W", (0, 1500000002500, 0), 250),
+            ("C", (0, 1500000002500, 0)),
+            ("W", (2, 1500000004000, 0), 250),
+            ("M", (2, 1500000004000, 0)),
+            ("W", (0, 1500000000000, 0), 100),
+            ("A", [(0, 1500000001000, 0), (2, 1500000001000, 1), (0, 1500000000000, 0), (0, 1500000000000, 0)], True)]
+    a, d, _r = check_batch(res, [((1000, 2, 1000), wit2)], "witness")
+    agree_all.append(a)
+    detail_all.append(d)
     # 1. exhaustive short histories
     L = 3 if quick else 4
     groups, nkeys = ([1, 2], 2)
